@@ -214,8 +214,8 @@ def run_c03(v):
             "--scenarios", 12 if quick else 48,
             "--ops", 6 if quick else 7,
             "--max-calls", 220 if quick else 400,
-            "--pairs", 1 if quick else 5,
-            "--pairs-fs", 0 if quick else 1,
+            "--pairs", 1 if quick else 10,
+            "--pairs-fs", 0 if quick else 3,
             "--pair-cap", 4000 if quick else 40000]
     s = lib.svh(binary, args, timeout=6000, env={"VERIF_WORK": _workdir()})
     msgs, dt, _ = lib.tlc_trace("Trace_Fault.tla", trace, timeout=6000, xmx="8g")
